@@ -17,9 +17,11 @@ CONSTANTS Alphabet,      \* set of instructions / probe steps to build programs 
 AlphaC == TLCEval(Alphabet)
 AppsC  == TLCEval(AppPatterns)
 
-VARIABLES prog, apps, ai, pc, st, data, cnt, uf, phase, log
+VARIABLES prog, apps, ai, pc, st, data, cnt, uf, lu, phase, log
 
-vars == <<prog, apps, ai, pc, st, data, cnt, uf, phase, log>>
+vars == <<prog, apps, ai, pc, st, data, cnt, uf, lu, phase, log>>
+\* lu: a *legacy* pop underflowed in this application (it marks only the element it
+\* could not serve, see known finding KF-legacy-pop-underflow-masked)
 
 \* Probe steps: [a |-> "add", e |-> 1..4, c |-> Int] and [a |-> "dbl", e |-> 1..4]
 IsProbe(ins) == ins.a \in {"add", "dbl", "noop"}
@@ -42,18 +44,20 @@ Dir == apps[ai]
 Cur == IF Dir = "F" THEN prog[pc] ELSE prog[Len(prog) + 1 - pc]
 
 Init == /\ prog = <<>> /\ apps = <<>> /\ ai = 0 /\ pc = 0 /\ st = <<>>
-        /\ data = Data0 /\ cnt = -1 /\ uf = FALSE /\ phase = "build" /\ log = <<>>
+        /\ data = Data0 /\ cnt = -1 /\ uf = FALSE /\ lu = FALSE /\ phase = "build" /\ log = <<>>
 
 Extend == /\ phase = "build" /\ Len(prog) < MaxLen
           /\ \E ins \in AlphaC : prog' = Append(prog, ins)
-          /\ UNCHANGED <<apps, ai, pc, st, data, cnt, uf, phase, log>>
+          /\ UNCHANGED <<apps, ai, pc, st, data, cnt, uf, lu, phase, log>>
 
 Start == /\ phase = "build" /\ Len(prog) >= 2
          /\ \E a \in AppsC : apps' = a
          /\ ai' = 1 /\ pc' = 1 /\ st' = <<>> /\ cnt' = -1 /\ phase' = "run"
-         /\ UNCHANGED <<prog, data, uf, log>>
+         /\ UNCHANGED <<prog, data, uf, lu, log>>
 
+EffKind == IF IsProbe(Cur) THEN "probe" ELSE IF Dir = "F" THEN Cur.a ELSE InverseIns(Cur).a
 Account(r) == /\ st' = r.st /\ data' = r.data
+              /\ lu' = (lu \/ (r.uf /\ EffKind = "lpop"))
               /\ cnt' = IF cnt = -1 THEN r.cnt ELSE Min(cnt, r.cnt)
               /\ uf' = (uf \/ r.uf)
               /\ pc' = pc + 1
@@ -82,12 +86,12 @@ StepLPop   == StepStack("lpop")
 \* empty stack: nothing leaks from one application into the next) or stop.
 EndApply ==
     /\ phase = "run" /\ pc > Len(prog)
-    /\ log' = Append(log, [dir |-> Dir, cnt |-> cnt, data |-> data, uf |-> uf, depth |-> Len(st)])
+    /\ log' = Append(log, [dir |-> Dir, cnt |-> cnt, data |-> data, uf |-> uf, lu |-> lu, depth |-> Len(st)])
     /\ IF ai < Len(apps) /\ ~uf     \* after an underflow the operands are only known to carry NaN: stop
        THEN /\ ai' = ai + 1 /\ pc' = 1 /\ st' = <<>> /\ cnt' = -1
-            /\ UNCHANGED <<prog, apps, data, phase, uf>>
+            /\ UNCHANGED <<prog, apps, data, phase, uf, lu>>
        ELSE /\ phase' = "done"
-            /\ UNCHANGED <<prog, apps, ai, pc, st, data, cnt, uf>>
+            /\ UNCHANGED <<prog, apps, ai, pc, st, data, cnt, uf, lu>>
 
 Next == Extend \/ Start \/ StepProbe \/ StepPush \/ StepPop \/ StepFlip \/ StepRoll
         \/ StepUnroll \/ StepSwap \/ StepLPush \/ StepLPop \/ EndApply
@@ -151,7 +155,7 @@ Emit == phase = "done" =>
         apps  |-> [i \in 1..Len(log) |->
                      [dir |-> log[i].dir, count |-> log[i].cnt,
                       \* after an underflow only "every tuple carries NaN" is specified
-                      exact |-> ~log[i].uf,
+                      exact |-> ~log[i].uf, legacy_underflow |-> log[i].lu,
                       data |-> log[i].data]]
     ])>>)
 =============================================================================
